@@ -110,7 +110,12 @@ def mk(cls, *a, **kw):
         return cls(*a, **kw)
 
 
+NONSTRING = [1.0, True, 0, False, 1, 0.0, (1, 2), (1.0, 2.0)]   # equal by value, different when printed
+
+
 def names_for(m, rot):
+    if rot == 9:
+        return [NONSTRING[i % len(NONSTRING)] for i in range(m.n)]
     return [NAMES[(i * 3 + rot) % len(NAMES)] + ("" if (i + rot) % 4 else "#%d" % i) for i in range(m.n)]
 
 
@@ -147,7 +152,7 @@ def judge_export(t, m, names, which, lines, start, stopset, hidden, ml, ctx, kno
             else:
                 ids = dict(zip(declared, got_ids))
                 for v, (ident, attr) in zip(declared, p["nodes"]):
-                    if attr != 'label="%s"' % names[v]:
+                    if attr != 'label="%s"' % (names[v],):
                         why = "default label attribute differs"
         else:
             f = id_of or (lambda v: str(names[v]))
@@ -272,8 +277,9 @@ def check_custom(t, m, names, nodes, known, ctx):
     exps = exporters()
     idm = tree.IdMap(nodes)
     namef = lambda nd: 'N:"%s"\\%d' % (nd.name, idm(nd))  # noqa - needs escaping, injective
-    nattr = lambda nd: None if idm(nd) % 2 else 'shape=box, label="%s"' % idm(nd)  # noqa
-    eattr = lambda a, b: None if idm(b) % 2 else "label=%d_%d" % (idm(a), idm(b))  # noqa
+    # None means "no attribute list"; an empty string is a (legal, empty) attribute list and must appear verbatim
+    nattr = lambda nd: (None if idm(nd) % 2 else 'shape=box, label="%s"' % idm(nd)) if idm(nd) % 3 else ""  # noqa
+    eattr = lambda a, b: (None if idm(b) % 2 else "label=%d_%d" % (idm(a), idm(b))) if idm(b) % 3 else ""  # noqa
     etype = lambda a, b: "--" if idm(b) % 3 else "-x-"  # noqa
     options = ["rankdir=LR;", 'label="x y";']
     for which in ("dot", "unique", "legacy"):
@@ -286,8 +292,8 @@ def check_custom(t, m, names, nodes, known, ctx):
                 judge_export(t, m, names, which, lines, start, (), (), None, dict(ctx, custom=True, indent=indent), known,
                              id_of=lambda v: 'N:"%s"\\%d' % (names[v], v),
                              opts={"indent": indent, "options": options, "graph": "graph", "name": "g1",
-                                   "nodeattr": lambda v: None if v % 2 else 'shape=box, label="%s"' % v,
-                                   "edgeattr": lambda a, b: None if b % 2 else "label=%d_%d" % (a, b),
+                                   "nodeattr": lambda v: (None if v % 2 else 'shape=box, label="%s"' % v) if v % 3 else "",
+                                   "edgeattr": lambda a, b: (None if b % 2 else "label=%d_%d" % (a, b)) if b % 3 else "",
                                    "edgetype": lambda a, b: "--" if b % 3 else "-x-"})
                 if which == "dot" and indent == 2 and start == 0:
                     with tempfile.TemporaryDirectory(prefix="verif-c12-") as d:
@@ -399,6 +405,7 @@ def run(tier):
     items += [(s, 1 + k % 5) for k, s in enumerate(tree.plane_trees(nmax))]
     # node classes with value semantics / their own truth value (identifiers and admission must not depend on them)
     items += [(s, 2, kind) for kind in ("eqhash", "falsy", "weird") for s in tree.shapes_upto(nmax - 1)]
+    items += [(s, 9) for s in tree.shapes_upto(nmax - 1)]   # non-string names
     t = core.Tally()
     core.run_pool([(MOD, "job", {"items": [it], "custom": True, "histories": True}) for it in items[::-1]], 0, into=t)
     core.run_pool([(MOD, "job", {"items": c, "custom": False, "histories": False})
